@@ -69,6 +69,19 @@ def lib_frame(tb):
     return found
 
 
+ORACLE_CRASH_TYPES = (TypeError, AttributeError, IndexError, KeyError, ZeroDivisionError, OverflowError)
+
+
+def check_frame(tb):
+    """Innermost frame inside a property module (pbt/props, helper modules), or None."""
+    found = None
+    for fr in traceback.extract_tb(tb):
+        fn = fr.filename.replace("\\", "/")
+        if "/pbt/" in fn and not fn.endswith("/pbt/runner.py"):
+            found = "%s:%s" % (os.path.basename(fn), fr.name)
+    return found
+
+
 class Ctx(object):
     """Per-task context: counters, samples, violations."""
 
@@ -131,7 +144,12 @@ class Ctx(object):
         except Exception as e:  # noqa
             fr = lib_frame(e.__traceback__)
             if fr is None:
-                raise
+                fr2 = check_frame(e.__traceback__)
+                if fr2 is None or not isinstance(e, ORACLE_CRASH_TYPES):
+                    raise
+                self.violation("check-crash:%s:%s" % (type(e).__name__, fr2),
+                               "the oracle could not interpret the library's answer: %s: %s" % (type(e).__name__, e), case)
+                return
             self.violation("exc:%s:%s" % (type(e).__name__, fr),
                            "%s: %s" % (type(e).__name__, e), case)
 
@@ -168,8 +186,14 @@ class Ctx(object):
                 except Exception as e:  # noqa
                     fr = lib_frame(e.__traceback__)
                     if fr is None:
-                        raise
-                    b = "exc:%s:%s" % (type(e).__name__, fr)
+                        fr2 = check_frame(e.__traceback__)
+                        if fr2 is None or not isinstance(e, ORACLE_CRASH_TYPES):
+                            raise
+                        # the oracle could not interpret what the library returned (e.g. None where
+                        # numbers are documented): reported as a violation, not swallowed as a harness error
+                        b = "check-crash:%s:%s" % (type(e).__name__, fr2)
+                    else:
+                        b = "exc:%s:%s" % (type(e).__name__, fr)
                     if self.skip_bucket(b):
                         return
                     last["v"] = (b, "%s: %s" % (type(e).__name__, e), to_case(value))
